@@ -15,10 +15,19 @@ JudgeBuffet(B) ==
               <<"P:C17:upper-bound", \A k \in 1..Len(B.res) : B.res[k].read <= Len(tr) * B.line_sz>>,
               <<"P:C17:tempfiles-removed", B.files_same = 1>> >>)
 JudgeCacheLaws(B) ==
-  LET tr == B.rows_r  b == Bind(B) IN
-  Fails(<< <<"P:C17:lower-bound", \A k \in 1..Len(B.res) : B.res[k].exc = "ok" /\ B.res[k].read >= DistinctLines(tr, b) * B.line_sz>>,
+  LET tr == Combine(B.rows_r, B.rows_w)  b == Bind(B)
+      ro == B.rows_w = <<>>
+      op(k) == CacheOp(tr, b, B.res[k].cap \div B.line_sz)
+      okall == \A k \in 1..Len(B.res) : B.res[k].exc = "ok"
+  IN IF ~okall THEN <<"P:C17:no-exception">> ELSE
+  Fails(<< <<"P:C17:lower-bound", ro => \A k \in 1..Len(B.res) : B.res[k].read >= DistinctLines(tr, b) * B.line_sz>>,
            <<"P:C17:upper-bound", \A k \in 1..Len(B.res) : B.res[k].read <= Len(tr) * B.line_sz>>,
-           <<"P:C17:monotone-capacity", \A k \in 1..(Len(B.res) - 1) : B.res[k].cap <= B.res[k + 1].cap => B.res[k].read >= B.res[k + 1].read>>,
+           <<"P:C17:monotone-capacity", ro => \A k \in 1..(Len(B.res) - 1) : B.res[k].cap <= B.res[k + 1].cap => B.res[k].read >= B.res[k + 1].read>>,
+           \* the charge of the furthest-next-use policy with bypass (FTBuffer.CacheOp; = the optimum on read traces, MC_Cache), also with writes and pinned staging lines
+           <<"P:C17:cache-policy-fills", \A k \in 1..Len(B.res) : B.res[k].read = op(k).fills * B.line_sz>>,
+           <<IF \E q \in 1..Len(tr) : tr[q].w = 1 /\ tr[q].pos >= B.shape THEN "P:C17:staging-not-written" ELSE "P:C17:cache-policy-writebacks",
+             ~ro => \A k \in 1..Len(B.res) : B.res[k].write = op(k).wbs * B.line_sz>>,
+           <<"S:cache-overflows", \A k \in 1..Len(B.res) : B.res[k].overflows = op(k).over>>,
            <<"P:C17:tempfiles-removed", B.files_same = 1>> >>)
 JudgeFilter(B) == Fails(<< <<"P:C17:filter", B.out_header_ok = 1 /\ B.out_rows = Filter(B.rows_r, B.rows_f)>>, <<"P:C17:tempfiles-removed", B.files_same = 1>> >>)
 JudgeCombine(B) == Fails(<< <<"P:C17:combine-stable", B.comb_header_ok = 1 /\ B.comb = Combine(B.rows_r, B.rows_w)>> >>)
